@@ -126,6 +126,48 @@ def run(ctx):
                 ctx.ob("R-SIG", "C08.3", g, f"override of FlowModel.{name}: the values of parameter `{p_}` reach the result (or the parameter is rejected)", flows or rejects, f"`{p_}` is accepted but only its size / presence is used: the supplied values are ignored and fresh samples are returned")
     ctx.ob("R-SIG", "C08.3", tables.FM, "override-parameter rule ran over every FlowModel subclass", True, f"{n_ov} (override, parameter) pairs checked")
 
+    # ---- C08.5 the density path keeps the configured precision ---------------------------------------------
+    # torch_dtype='float64' switches torch's default dtype; every tensor on the array-level density path must follow it
+    # (torch.get_default_dtype()), never a hard-coded narrower type: the final .astype(np.float64) would hide the loss
+    from ..callgraph import reachable_from
+
+    roots = [f"{tables.FM}.{m}" for m in ("log_prob", "forward_and_log_prob", "sample_and_log_prob", "sample", "sample_latent_distribution", "numpy_array_to_tensor")]
+    ifm = prog.cls("nessai.flowmodel.importance:ImportanceFlowModel")
+    roots += [ifm.methods[m].qual for m in ("log_prob_ith", "log_prob_all", "sample_ith") if m in ifm.methods]
+    for k_ in prog.subclasses(fm):
+        roots += [m_.qual for n_, m_ in k_.methods.items() if n_ in ("log_prob", "forward_and_log_prob", "sample_and_log_prob", "sample", "sample_latent_distribution")]
+    roots += [m_.qual for c_ in [prog.cls("nessai.flows.base:NFlow")] + prog.subclasses(prog.cls("nessai.flows.base:NFlow")) for n_, m_ in c_.methods.items() if n_ in ("forward", "inverse", "log_prob", "sample", "sample_and_log_prob", "forward_and_log_prob", "base_distribution_log_prob", "sample_latent_distribution")]
+    reach_ = sorted(q for q in reachable_from(prog, [prog.fn(r).qual for r in roots if prog.functions.get(r) is not None or True]) if q.startswith(("nessai.flowmodel", "nessai.flows", "nessai.utils.torchutils")))
+    ctx.require(_narrow_dtype_uses(ast.parse(_DTYPE_FIXTURE)) >= 4, "R-DTYPE fixture: the narrow-precision rule did not match the planted sites")
+    n_d = 0
+    for q in reach_:
+        f_ = prog.functions.get(q)
+        if f_ is None or f_.module.name == "nessai.utils.torchutils":
+            continue
+        n_d += 1
+        ctx.analysed_functions.add(f_.qual)
+        bad_ = _narrow_dtype_sites(f_.node)
+        ctx.ob("R-DTYPE", "C08.5", f_, "no tensor on the density path is created or cast with a hard-coded narrow precision (float32 / float16 / .float() / .half())", not bad_, f"{bad_[:3]}")
+    ctx.floor("C08.5", 12)
+
+    # ---- C08.6 data-space / latent-space typing of the points handed to the flow interface ------------------
+    from ..rules import space
+
+    n_sp = 0
+    for f_ in prog.all_functions:
+        mn_ = f_.module.name
+        if f_.parent is not None or not mn_.startswith(("nessai.flowmodel", "nessai.flows", "nessai.experimental.flowmodel", "nessai.proposal", "nessai.experimental.proposal", "nessai.gw.proposal")):
+            continue
+        pt_ = {}
+        if mn_.startswith(("nessai.flowmodel", "nessai.flows", "nessai.experimental.flowmodel")):
+            pt_ = {p_: (space.DATA if p_ == "x" else space.LATENT) for p_ in f_.params() if p_ in ("x", "z")}
+        reps_ = space.analyse(f_, pt_)
+        n_sp += 1
+        if reps_ or any(isinstance(c_, ast.Call) and isinstance(c_.func, ast.Attribute) and c_.func.attr in space.CONSUME for c_ in walk_no_nested(f_.node)):
+            ctx.analysed_functions.add(f_.qual)
+            ctx.ob("R-SPACE", "C08.6", f_, "every point handed to log_prob / forward is a data-space point and every point handed to inverse / base_distribution_log_prob is a latent point (re-bindings followed in statement order)", not reps_, "; ".join(m_ for _, m_ in reps_)[:300], node=reps_[0][0] if reps_ else None)
+    ctx.floor("C08.6", 15)
+
     # ---- C08.4 NFlow definitions ---------------------------------------------------------------------
     nf = prog.cls("nessai.flows.base:NFlow")
     def _ret(fi, pattern, binds):
@@ -202,6 +244,35 @@ def _value_names(e):
     return out
 
 
+_NARROW = {"float32", "float16", "half", "bfloat16", "float"}
+_DTYPE_FIXTURE = """
+import torch, numpy as np
+def f(x, n):
+    a = torch.empty(n, dtype=torch.float32)
+    b = x.float()
+    c = x.to(torch.float16)
+    d = np.zeros(n, dtype=np.float32)
+    e = x.type(torch.get_default_dtype())
+    return a, b, c, d, e
+"""
+
+
+def _narrow_dtype_sites(root):
+    out = []
+    for n in ast.walk(root):
+        if isinstance(n, ast.Attribute) and n.attr in _NARROW - {"float"} and isinstance(n.value, ast.Name) and n.value.id in ("torch", "np", "numpy"):
+            out.append(f"line {n.lineno}: `{src(n)}`")
+        elif isinstance(n, ast.Call) and isinstance(n.func, ast.Attribute) and n.func.attr in ("float", "half", "bfloat16") and not n.args and not n.keywords:
+            out.append(f"line {n.lineno}: `{src(n)[:60]}`")
+        elif isinstance(n, ast.Constant) and isinstance(n.value, str) and n.value in ("float32", "float16", "f4", "f2", "<f4"):
+            out.append(f"line {n.lineno}: dtype string `{n.value}`")
+    return out
+
+
+def _narrow_dtype_uses(tree):
+    return len(_narrow_dtype_sites(tree))
+
+
 CLAIM = {
     "text": "Decides the sign-and-drop discipline that makes generated and evaluated densities agree: every Jacobian returned by a directional map (forward / rescale / to_prime / _transform vs. inverse / inverse_rescale / from_prime) in the flow, flow-model and proposal modules is tagged and followed through accumulators, reshapes and callee parameters; a data->latent Jacobian must enter every additive expression with +, a latent->data Jacobian with -, and in density-returning functions none may be dropped (finiteness-mask-only uses are a reviewed list); compute_log_Q's Jacobian parameter is tagged from all its call sites; the array-level FlowModel wrappers delegate to the same-named flow method on the caller's array, and in the supplied-latent branch the density function is alt_dist.log_prob iff alt_dist is given and is applied to the same z that is inverted; NFlow's three density definitions match the documented forms; overrides of the FlowModel density methods must read the parameters the result depends on. Recorded findings: a diagnostic plot adds an inverse Jacobian, and the clustering flow model ignores supplied latent points.",
     "note": "Decides signs and completeness of Jacobian bookkeeping, not invertibility or normalisation of the transforms, float tolerances or trained-weight behaviour.",
@@ -212,6 +283,10 @@ _FM = "nessai/flowmodel/base.py"
 _FP = "nessai/proposal/flowproposal.py"
 _IP = "nessai/proposal/importance.py"
 MUTANTS = [
+    {"id": "density-evaluated-at-latent-point", "file": "nessai/experimental/flowmodel/clustering.py", "old": "        z, _ = super().forward_and_log_prob(x, conditional=cluster_labels)\n        log_prob = self.log_prob(x)\n        return z, log_prob", "new": "        x, _ = super().forward_and_log_prob(x, conditional=cluster_labels)\n        log_prob = self.log_prob(x)\n        return x, log_prob", "expect": "data-space point"},
+    {"id": "base-density-of-data-point", "file": "nessai/flowmodel/base.py", "old": "                log_prob = log_prob_fn(z)\n                x, log_J = self.model.inverse(z, context=conditional)", "new": "                x, log_J = self.model.inverse(z, context=conditional)\n                log_prob = self.model.base_distribution_log_prob(x)", "expect": "C08"},
+    {"id": "density-buffer-hard-coded-float32", "file": "nessai/flowmodel/importance.py", "old": "        log_prob = torch.empty(x.shape[0], n)\n", "new": "        log_prob = torch.empty(x.shape[0], n, dtype=torch.float32, device=x.device)\n", "expect": "hard-coded narrow precision"},
+    {"id": "input-cast-to-float", "file": "nessai/flowmodel/base.py", "old": "            .type(torch.get_default_dtype())\n", "new": "            .float()\n", "expect": "hard-coded narrow precision"},
     {"id": "nflow-sample-sign", "file": _B, "old": "        return samples, log_prob - logabsdet", "new": "        return samples, log_prob + logabsdet", "expect": "enters the density with -"},
     {"id": "nflow-logprob-drops-det", "file": _B, "old": "        return log_prob + logabsdet", "new": "        return log_prob", "expect": "dropped"},
     {"id": "flowmodel-latent-sign", "file": _FM, "old": "                log_prob -= log_J\n", "new": "                log_prob += log_J\n", "expect": "enters the density with -"},
